@@ -99,10 +99,46 @@ def par_job(job):
         elif rc != rc1 or snap != snap1:
             probs.append(('parallel-differs', 'threads %d (free schedule): exit %d vs %d, differing paths %s' % (threads, rc, rc1, snap_cmp(snap, snap1))))
     # forced schedules
-    keys_for = {}
+    keys_for, considers = {}, {}
     for n in (2, 3):
         rc, snap, se, evs = run(n, env={})
         keys_for[n] = sorted({e['w'] for e in evs if e['w'] not in ('', 'main')})
+        considers[n] = {k: sum(1 for e in evs if e['ev'] == 'consider' and e['w'] == k) for k in keys_for[n]}
+    scripts = []
+    if nsched and (nsched > 6 or sseed % 3 == 0):       # quick tier: every third scenario
+        # every interleaving of the apply phase at file-patch granularity: all merges of the workers' consider points
+        # (a worker that stops early simply leaves its later turns unused), each followed by alternation for the save phase
+        for n in (2, 3):
+            keys = keys_for[n]
+            if len(keys) < 2:
+                continue
+            total = sum(considers[n].values())
+            if total > 7:
+                continue
+            def merges(rest):
+                if not any(rest.values()):
+                    yield []
+                    return
+                for k in sorted(rest):
+                    if rest[k]:
+                        r2 = dict(rest); r2[k] -= 1
+                        for m in merges(r2):
+                            yield [k] + m
+            allm = list(merges({k: considers[n][k] + 1 for k in keys}))
+            if len(allm) > (24 if nsched <= 6 else 200):
+                allm = rnd.sample(allm, 24 if nsched <= 6 else 200)
+            for m in allm:
+                scripts.append((n, m + [keys[i % len(keys)] for i in range(40)]))
+    for n, script in scripts:
+        rc, snap, se, evs = run(n, env={'RAPIDQUILT_VERIF_SCHEDULE': ','.join(script), 'RAPIDQUILT_VERIF_TIMEOUT_MS': '3000'})
+        if any(e['ev'] == 'sched-timeout' for e in evs):
+            probs.append(('skipped', 'schedule could not be enforced'))
+            continue
+        if ws.crashed(rc):
+            probs.append(('parallel-crash', 'forced schedule %s: exit status %s: %s' % (script[:12], rc, se[-200:])))
+        elif rc != rc1 or snap != snap1:
+            probs.append(('parallel-differs', 'forced apply-phase interleaving %s...: exit %d vs %d, differing paths %s' % (','.join(script[:10]), rc, rc1, snap_cmp(snap, snap1))))
+        traces.append({'scn': dict(scn_json, seq=False), 'ev': normalise(evs), 'script': script[:24], 'exit': rc, 'threads': n, 'full_script': script, 'merge': True})
     if nsched:
         for k in range(nsched):
             n = 2 + (k % 2)
@@ -280,7 +316,7 @@ def check(prop, tier):
                 if True:
                     res.violation('trace-rejected', 'the hook trace of a %s run is not a behaviour of the driver model Push.tla (schedule %s...)' % ('sequential' if tr['scn']['seq'] else 'forced-schedule', ','.join(tr['script'][:12])),
                                   {'scenario': tr['scn'], 'events': tr['ev'], 'script': tr['script']})
-        res.cov['parts']['par-scenarios'].update({'scenarios': len(jobs), 'free_runs': len(jobs) * 6, 'forced_runs': nforced, 'forced_skipped': nskip,
+        res.cov['parts']['par-scenarios'].update({'scenarios': len(jobs), 'free_runs': len(jobs) * 6, 'forced_runs': nforced, 'of_them_exhaustive_apply_phase_interleavings': sum(1 for tr in all_traces if tr.get('merge')), 'forced_skipped': nskip,
                                                   'traces_accepted_by_model': len(accepted), 'sequential_traces': sum(1 for tr in all_traces if tr['scn']['seq'])})
         res.cov['traces_validated_against_impl'] += nforced + len(jobs) * 6
         res.cov['evaluations'] += nforced + len(jobs) * 6
@@ -294,7 +330,7 @@ def check(prop, tier):
         shutil.rmtree(work, ignore_errors=True)
     res.cov['exhaustive'] = True
     res.cov['rule'] = ('model: 17424 scenarios (3 trees x 1-2 + 1 file patches from 11 abstract file patches, two of them ending in an error, x optional -R x 2 backup configs) x all interleavings of 2 (thorough: and 3) workers, TLC exhaustive; '
-                       'binary: stratified sample of the Outcome scenarios, each run with 1, 2, 3, 4, 8, 16 threads on a free schedule and under 6 (thorough 10) scripted schedules (each worker running completely ahead once, random runs of 1-12 turns, strict '
+                       'binary: stratified sample of the Outcome scenarios, each run with 1, 2, 3, 4, 8, 16 threads on a free schedule, under EVERY interleaving of the apply phase at file-patch granularity (2 and 3 threads; quick tier: every third scenario) and under 6 (thorough 10) scripted schedules (each worker running completely ahead once, random runs of 1-12 turns, strict '
                        'alternation) enforced at every consider / file-operation point; each forced run is also trace-validated against the model')
     res.assumptions += ['the baton hooks sit at every shared-state access (apply_worker loop top, every file operation); strace-based checks (C10, C15, C19) cross-check the operation hooks']
     return res
